@@ -491,6 +491,86 @@ theorem C08_csptpcli_genuine_pair_completes_swapped (dl : Bool) (seq : Nat) (st 
     simp only [applyCls]
     exact ⟨_, rfl, rfl, rfl, fun _ => ⟨rfl, rfl⟩⟩
 
+/-! ### agreement with the one-datagram model of Model/CsptpClient.lean -/
+
+/-- 0 = failure path, 1 = Sync accepted, 2 = Follow_Up accepted, 3 = panic -/
+def verdictKind : Verdict → Nat
+  | .retry _ => 0
+  | .acceptSync => 1
+  | .acceptFollowUp => 2
+  | .panicSlice => 3
+def clsKind : Cls → Nat
+  | .failed _ _ _ _ _ => 0
+  | .sync _ => 1
+  | .followUp _ _ => 2
+
+/-- The loop's classification of a datagram and the verdict of `CsptpClient.onDatagram` (the model
+    behind `C08_csptp_client_no_panic` and C18's `evaluateDatagrams`) agree on what is accepted,
+    for every untruncated datagram read into any 98-byte buffer. -/
+theorem C08_csptpcli_agrees_with_onDatagram (seq : Nat) (tlv0 : ResponseTLV) (backing wire : List Nat) (src : Src)
+    (hb : backing.length = maxMessageLength) (hw : wire.length ≤ maxMessageLength) :
+    verdictKind (onDatagram true (CsptpSrv.recvInto backing wire) wire.length (src == .event) (src == .general) seq) =
+      clsKind (classify seq tlv0 wire 0 src) := by
+  have hfl : CsptpSrv.recvFlags wire.length 0 = 0 := (CsptpSrv.recvFlags_zero_iff _ _).mpr ⟨hw, rfl⟩
+  have hw' : wire.length ≤ 98 := hw
+  have hmin : wire.length ≤ min wire.length CsptpSrv.maxMessageLength := by
+    unfold CsptpSrv.maxMessageLength; omega
+  unfold classify
+  rw [if_neg (show ¬ CsptpSrv.recvFlags wire.length 0 ≠ 0 by omega)]
+  unfold onDatagram
+  by_cases hs : wire.length < minMessageLength
+  · simp [hs, verdictKind, clsKind]
+  · have h44 : minMessageLength ≤ wire.length := by omega
+    simp only [Bool.true_and, decide_eq_true_eq, hs, ↓reduceIte]
+    rw [CsptpSrv.recvInto_take _ _ _ (by omega), CsptpSrv.recvInto_take _ _ _ hmin, List.take_of_length_le (Nat.le_refl _)]
+    rcases C14.msg_decode_total (wire.take minMessageLength) with ⟨_, hm⟩ | ⟨_, hm⟩
+    · rw [hm]; rfl
+    · rw [hm]
+      simp only
+      split
+      · rfl
+      · split
+        · rfl
+        · split
+          · by_cases hz : wire.length - minMessageLength = 0 <;> cases src <;> simp [verdictKind, clsKind, hz]
+          · split
+            · cases src
+              · simp [verdictKind, clsKind]
+              · simp only [beq_self_eq_true, Bool.not_true, Bool.false_eq_true, ↓reduceIte, ne_eq, not_true_eq_false]
+                rcases CsptpSrv.resp_decode_cases (wire.drop minMessageLength) with hd | ⟨t, hd⟩
+                · have hdi : (decodeInto tlv0 (wire.drop minMessageLength)).2 = false := by
+                    unfold decodeInto; rw [hd]; simp only; split <;> rfl
+                  rw [hd, hdi]; rfl
+                · rw [hd, decodeInto_of_ok hd]
+                  simp only [Bool.not_true, Bool.false_eq_true, ↓reduceIte]
+                  by_cases hk : isResponseKind t = true
+                  · have hk' : ¬ (t.type ≠ tlvTypeOrganizationExtension ∨ t.organizationID ≠ orgIDMeinberg ∨
+                        t.organizationSubType ≠ orgSubTypeResponse) := by
+                      unfold isResponseKind at hk
+                      simp only [Bool.and_eq_true, beq_iff_eq] at hk
+                      rintro (h | h | h) <;> simp_all
+                    have hk'' : ¬ (¬t.type = tlvTypeOrganizationExtension ∨ ¬t.organizationID = orgIDMeinberg ∨
+                        ¬t.organizationSubType = orgSubTypeResponse) := hk'
+                    rw [if_neg hk'']
+                    simp only [hk, Bool.not_true, Bool.false_eq_true, ↓reduceIte]
+                    split <;> rfl
+                  · have hk' : (t.type ≠ tlvTypeOrganizationExtension ∨ t.organizationID ≠ orgIDMeinberg ∨
+                        t.organizationSubType ≠ orgSubTypeResponse) := by
+                      unfold isResponseKind at hk
+                      simp only [Bool.and_eq_true, beq_iff_eq, not_and] at hk
+                      by_cases h1 : t.type = tlvTypeOrganizationExtension
+                      · by_cases h2 : t.organizationID = orgIDMeinberg
+                        · exact .inr (.inr (hk ⟨h1, h2⟩))
+                        · exact .inr (.inl h2)
+                      · exact .inl h1
+                    have hk'' : (¬t.type = tlvTypeOrganizationExtension ∨ ¬t.organizationID = orgIDMeinberg ∨
+                        ¬t.organizationSubType = orgSubTypeResponse) := hk'
+                    rw [if_pos hk'']
+                    simp only [hk, Bool.not_false, ↓reduceIte]
+                    rfl
+              · simp [verdictKind, clsKind]
+            · rfl
+
 /-! ### the client against the listener of this commit -/
 
 /-- a history in which nothing arrives: read errors only -/
